@@ -157,7 +157,7 @@ Definition chain_outcomes_with {S : Type} (layer : S -> itree S) (s0 : S) (n : n
   let fuel := Datatypes.S (Datatypes.S (n + n)) in
   let clean := fst (read_all (src_of_fault n None) layer fuel s0 c0 []) in
   map (fun k => chain_classify clean
-                 (fst (read_all (src_of_fault n (Some (mkFault k fmd inj_id))) layer fuel s0 c0 [])))
+                 (fst (read_all (src_of_fault n (Some (plain_fault k fmd inj_id))) layer fuel s0 c0 [])))
       (seq 1 n).
 
 (* the three stacks must agree; otherwise OOtherErr *)
